@@ -64,6 +64,25 @@ def gen_history(rng, case, maxlen):
             ops += [["set_initial", call], [rng.choice(["sample", "solve", "value"])], ["set_initial", call2]]
             c.setdefault("calls", []).extend([call, call2])
             continue
+        if step == npre and objs0 and scalar_param_slots(c) and rng.random() < 0.5:
+            # a query first (no guess mentions a parameter yet), then a guess that is an expression of a global
+            # parameter given to the transcribed OCP, then a new value for that parameter: the start point follows
+            o = rng.choice(objs0)
+            tp = c.get("T", {}).get("param")
+            sl = [i_ for i_ in scalar_param_slots(c) if i_ != tp]
+            if sl:
+                i = rng.choice(sl)
+                call = {"obj": [o["kind"], o["idx"]], "g": o["g"], "slot": o["slot"], "len": 1, "form": "pdep",
+                        "coef": jq(gen.dyadic_nz(rng, -2, 2, 1)), "pslot": i, "after": False}
+                v = jq(gen.dyadic_nz(rng, -2, 2, 2))
+                ops += [[rng.choice(["sample", "solve", "value"])], ["set_initial", call], ["set_value", i, v]]
+                if rng.random() < 0.5:
+                    ops.append([rng.choice(["sample", "solve", "value"])])
+                    v = jq(gen.dyadic_nz(rng, -2, 2, 2))
+                    ops.append(["set_value", i, v])
+                c["param_values"]["p"][i] = v
+                c.setdefault("calls", []).append(call)
+                continue
         zs0 = [o_ for o_ in c10.objects(c) if o_["g"] == "GZ"] if c["method"]["kind"] == "DC" else []
         xs0 = [o_ for o_ in c10.objects(c) if o_["g"] in ("GX", "GU")]
         if step == npre and zs0 and xs0 and rng.random() < 0.6:
@@ -193,7 +212,9 @@ def gen_history(rng, case, maxlen):
 
 def apply_call(B, ocp, call):
     kind, idx = call["obj"]
-    if call.get("form") == "dep":
+    if call.get("form") == "pdep":
+        ocp.set_initial(B.objs[kind][idx], float(Fr(call["coef"])) * B.S["p"][call["pslot"]])
+    elif call.get("form") == "dep":
         vk, vi = call["var"]
         ocp.set_initial(B.objs[kind][idx], float(Fr(call["coef"])) * B.objs[vk][vi])
     else:
